@@ -151,8 +151,8 @@ impl CasObject {
             /*@C07*/ r matches Ok(v) ==> v@ == decode_from(chunk_data@, 0),
 //@ loop 1
             invariant
-                reader.data == chunk_data@,
-                res@ + decode_from(chunk_data@, reader.p) == decode_from(chunk_data@, 0),
+                /*@AUX*/ reader.data == chunk_data@,
+                /*@C07*/ res@ + decode_from(chunk_data@, reader.p) == decode_from(chunk_data@, 0),
             decreases chunk_data@.len() - reader.p,
 //@ before `res.extend_from_slice(&data);`
             proof { lemma_contents_step(reader.data, p_before, res@, data@); }
@@ -170,7 +170,7 @@ impl CasObject {
             // (guaranteed by the two callers only if the boundary table is non-decreasing -- see get_bytes_by_chunk_range)
             self.info_complete() ==> byte_start <= self.contents_len(),
         ensures
-            final(reader).bytes() == old(reader).bytes(),
+            /*@AUX*/ final(reader).bytes() == old(reader).bytes(),
             /*@C07*/ r matches Ok(v) ==> ({
                 let end = if byte_end <= self.contents_len() { byte_end as int } else { self.contents_len() };
                 &&& byte_start <= byte_end && self.info_complete() && end <= old(reader).bytes().len()
@@ -184,7 +184,7 @@ impl CasObject {
 //@ ret r
 //@ contract
         ensures
-            final(reader).bytes() == old(reader).bytes(),
+            /*@AUX*/ final(reader).bytes() == old(reader).bytes(),
             /*@C07*/ r matches Ok(v) ==> self.info_complete() && self.contents_len() <= old(reader).bytes().len()
                 && v@ == decode_from(old(reader).bytes().subrange(0, self.contents_len()), 0),
 //@ end
@@ -196,7 +196,7 @@ impl CasObject {
             // (see get_range) with a decreasing boundary table the start offset can lie behind the last boundary and `end - byte_start` underflows
             nondecreasing(self.info.chunk_boundary_offsets@),
         ensures
-            final(reader).bytes() == old(reader).bytes(),
+            /*@AUX*/ final(reader).bytes() == old(reader).bytes(),
             /*@C07*/ r matches Ok(v) ==> ({
                 let t = self.info.chunk_boundary_offsets@;
                 &&& self.info_complete() && chunk_index_start < chunk_index_end <= self.info.num_chunks && chunk_index_end <= t.len()
